@@ -139,26 +139,29 @@ def report(ctx, prop_fail, case, what, extra=None, known=None):
     if extra:
         replay.update(extra)
     if known:
-        msg = "%s — %s [region %s]" % (known, what[:300], known)
-        if not any(k.startswith(known) for k in ctx.known_hits):
-            ctx.known_hits.append(msg)
+        # inside the region of a listed finding: counted; the KNOWN-FINDING line comes from the finding's own witness
         ctx.count("known." + known)
+        if len(ctx.notes) < 12:
+            ctx.notes.append("in region of %s: %s" % (known, what[:160]))
         return
     ctx.fail(what, replay)
 
 
 def known_for(regs, prop, kind):
-    """Which listed finding (if any) covers a failure of `kind` for `prop` in these regions."""
+    """Which listed finding (if any) covers a failure of `kind` in these regions.  Kinds carry the failure's
+    signature (e.g. 'random-exception:KeyError', 'exhaust:missing-all', 'agree:sat-empty'); a finding only covers
+    the signatures it was recorded with, so a different failure in the same region is still reported."""
     table = [
-        ("F10", {"exhaust", "count", "agree", "random-exception", "trialcount", "mismatch", "sound", "distinct"}),
-        ("F18", {"random-exception"}),
-        ("F22", {"exhaust", "agree", "sound", "sat-exception", "random-exception", "count", "trialcount", "mismatch"}),
-        ("F19", {"exhaust", "agree", "sound", "sat-exception", "count"}),
-        ("U1", {"agree", "exhaust", "sound", "mismatch"}),
-        ("F26", {"mismatch"}),
+        ("F10", ("exhaust:missing-all", "agree:sat-empty", "random-exception:AssertionError", "trialcount", "count",
+                 "mismatch:trial_count", "mismatch:crossing", "distinct")),
+        ("F18", ("random-exception:KeyError",)),
+        ("F22", ("exhaust", "agree", "sound", "sat-exception:IndexError", "count", "trialcount", "mismatch", "law")),
+        ("F19", ("exhaust", "agree", "sound:derived", "sat-exception:RuntimeError", "count")),
+        ("U1", ("agree", "exhaust", "sound:constraint", "mismatch")),
+        ("F26", ("mismatch:KeyError",)),
     ]
     for r, kinds in table:
-        if r in regs and kind in kinds:
+        if r in regs and any(kind == k or kind.startswith(k + ":") or kind.startswith(k + "-") or kind.startswith(k) for k in kinds):
             return r
     return None
 
@@ -246,7 +249,7 @@ def check_sound(ctx, case, strat, n, prop):
         ctx.count("timeout." + strat)
         return None
     except Exception as e:
-        kind = "random-exception" if strat == "RandomGen" else "sat-exception"
+        kind = ("random-exception:" if strat == "RandomGen" else "sat-exception:") + type(e).__name__
         report(ctx, "exception", case, "%s raised %s: %s" % (strat, type(e).__name__, str(e)[:200]),
                {"strategy": strat}, known_for(case.regs, prop, kind))
         return None
@@ -254,9 +257,10 @@ def check_sound(ctx, case, strat, n, prop):
     verdicts = O.lean_valid(ctx, case.desc, seqs)
     for s, v in zip(seqs, verdicts):
         if v:
+            comp = "derived" if "derived" in v or "shape" in v else ("crossing" if any(x.startswith("crossing") for x in v) else "constraint")
             report(ctx, "sound", case, "%s returned a sequence that is not valid for the design (%s): %s" % (
                 strat, ",".join(v), O.fmt_seq(case.desc, s)), {"strategy": strat, "seq": s},
-                known_for(case.regs, prop, "sound"))
+                known_for(case.regs, prop, "sound:" + comp))
             break
     return seqs
 
@@ -273,7 +277,7 @@ def check_exhaust(ctx, case, strat, prop):
         ctx.count("timeout." + strat)
         return None
     except Exception as e:
-        kind = "random-exception" if strat == "RandomGen" else "sat-exception"
+        kind = ("random-exception:" if strat == "RandomGen" else "sat-exception:") + type(e).__name__
         report(ctx, "exception", case, "%s raised %s: %s" % (strat, type(e).__name__, str(e)[:200]),
                {"strategy": strat}, known_for(case.regs, prop, kind))
         return None
@@ -295,7 +299,8 @@ def check_exhaust(ctx, case, strat, prop):
             strat, len(got), len(want), len(missing), len(extra), len(dup))
         if missing:
             what += "; e.g. missing " + json.dumps(D.seq_to_exp(case.desc, [[f, list(c)] for f, c in missing[0]]), sort_keys=True)
-        report(ctx, "exhaust", case, what, {"strategy": strat}, known_for(case.regs, prop, "exhaust"))
+        sig = "exhaust:extra" if extra or dup else ("exhaust:missing-all" if not got else "exhaust:missing-some")
+        report(ctx, "exhaust", case, what, {"strategy": strat}, known_for(case.regs, prop, sig))
     return got
 
 
@@ -398,7 +403,7 @@ def oracle_c07(ctx, budget_s):
                 break
             except Exception as e:
                 report(ctx, "exception", case, "%s raised %s: %s" % (strat, type(e).__name__, str(e)[:200]), {"strategy": strat},
-                       known_for(case.regs, "C07", "random-exception" if strat == "RandomGen" else "sat-exception"))
+                       known_for(case.regs, "C07", ("random-exception:" if strat == "RandomGen" else "sat-exception:") + type(e).__name__))
                 res = None
                 break
         if res is None:
@@ -416,7 +421,7 @@ def oracle_c07(ctx, budget_s):
                 report(ctx, "agree", case, "IterateSATGen can return %d sequences, RandomGen %d; e.g. only %s returns %s" % (
                     len(sa), len(sb), "IterateSATGen" if k in sa else "RandomGen",
                     json.dumps(D.seq_to_exp(case.desc, [[f, list(c)] for f, c in k]), sort_keys=True)),
-                    None, known_for(case.regs, "C07", "agree"))
+                    None, known_for(case.regs, "C07", "agree:sat-empty" if not sa else ("agree:sat-missing" if not (sa - sb) else "agree:random-missing")))
         ctx.case(("C07", json.dumps(case.desc, sort_keys=True)), nontrivial(case) and da and db,
                  sample={"design": sample_desc(case), "solutions": len(a)} if len(ctx.samples) < 3 else None)
         if ctx.failures:
@@ -447,7 +452,7 @@ def oracle_c08(ctx, budget_s):
             except O.CallTimeout:
                 ctx.count("timeout." + strat)
             except Exception as e:
-                kind = "random-exception" if strat == "RandomGen" else "sat-exception"
+                kind = ("random-exception:" if strat == "RandomGen" else "sat-exception:") + type(e).__name__
                 report(ctx, "exception", case, "%s raised %s: %s" % (strat, type(e).__name__, str(e)[:200]),
                        {"strategy": strat}, known_for(case.regs, "C08", kind))
             ctx.count("C08." + strat)
@@ -481,7 +486,7 @@ def oracle_c09(ctx, budget_s):
                     break
                 except Exception as e:
                     report(ctx, "exception", case, "%s raised %s" % (name, type(e).__name__), None,
-                           known_for(case.regs, "C09", "random-exception" if name != "IterateSATGen" else "sat-exception"))
+                           known_for(case.regs, "C09", ("random-exception:" if name != "IterateSATGen" else "sat-exception:") + type(e).__name__))
                     break
                 ctx.count("C09." + name)
                 got = multiset(exps_to_seqs(ctx, case, exps, name))
@@ -578,9 +583,11 @@ def oracle_c17(ctx, budget_s):
                 mm = {"exception": type(e).__name__}
             ctx.count("C17.valid" if not v else "C17.invalid")
             if (mm == {}) != (not v):
+                sig = "mismatch:" + ("KeyError" if mm.get("exception") == "KeyError" else ("trial_count" if "trial_count" in mm else
+                                     ("crossing" if ("crossings" in mm or any(x.startswith("crossing") for x in v)) else "other")))
                 report(ctx, "mismatch", case, "mismatch checker says %s, reference says %s, for %s" % (
                     mm or "{}", v or "valid", O.fmt_seq(case.desc, s)), {"seq": s},
-                    known_for(case.regs, "C17", "mismatch"))
+                    known_for(case.regs, "C17", sig))
                 break
         ctx.case(("C17", json.dumps(case.desc, sort_keys=True)), True,
                  sample={"design": sample_desc(case), "candidates": len(cands)} if len(ctx.samples) < 3 else None)
@@ -600,7 +607,7 @@ def oracle_c03(ctx, budget_s):
             cnf = quiet(build_cnf, blk)
         except Exception as e:
             report(ctx, "exception", case, "build_cnf raised %s" % type(e).__name__, None,
-                   known_for(case.regs, "C03", "sat-exception"))
+                   known_for(case.regs, "C03", "sat-exception:" + type(e).__name__))
             continue
         clauses = [[int(v) for v in cl] for cl in cnf._vals]
         support = blk.variables_per_sample()
